@@ -40,7 +40,7 @@ def unit_list(fe):
 
     def lemma(E):
         n = E.choice('hosted', [0, 1, 2, 3])
-        ids = [E.int('unit%d' % k, 0, 248) for k in range(n)]
+        ids = [E.int('unit%d' % k, 0, 256) for k in range(n)]      # any id the constructor accepts, 248..255 included
         ctx = E.obj(S.CTX, single=E.bool('single'), _slaves=dict((ids[k], 100 + k) for k in range(n)))
         broadcast = E.bool('broadcast_enable')
         seen = []
